@@ -590,7 +590,7 @@ func assignStmtOf(body *ast.BlockStmt, name string, occ int) ast.Stmt {
 			}
 			// a call nested in the statement's expression (`x = append(x, f(a, b))`): same anchoring
 			if stmt != nil {
-				if _, isIf := stmt.(*ast.IfStmt); !isIf && nestedCallNamed(stmt, callAnchorName(name)) != nil {
+				if nestedCallNamed(stmt, callAnchorName(name)) != nil {
 					if n == occ {
 						found = stmt
 					}
@@ -959,6 +959,10 @@ func nestedCallNamed(s ast.Stmt, want string) *ast.CallExpr {
 		exprs = []ast.Expr{x.X}
 	case *ast.AssignStmt:
 		exprs = x.Rhs
+	case *ast.IfStmt:
+		// a call inside a compound condition: the assert is checked on the paths that fall through the if statement,
+		// old(e) is the state in which the condition starts to be evaluated
+		exprs = []ast.Expr{x.Cond}
 	}
 	var found *ast.CallExpr
 	for _, e := range exprs {
